@@ -369,7 +369,9 @@ def assert_repo_import():
     os.environ[paths.GUARD] = "1"
     os.environ["TQDM_DISABLE"] = "1"
     import logging
+    import warnings
     logging.disable(logging.CRITICAL)
+    warnings.filterwarnings("ignore")
     import neuroglancer_scripts
     here = os.path.realpath(neuroglancer_scripts.__file__)
     if not here.startswith(os.path.realpath(paths.REPO_SRC) + os.sep):
